@@ -444,3 +444,29 @@ func checkTrackerEntriesTested(c *Ctx, res *report.Result, rule string, minSites
 		res.Undec(rule, "accesses of tracker entries in stream_tracker.go", "", fmt.Sprintf("%d found, at least %d confirmed by hand", n, minSites))
 	}
 }
+
+// checkAggregateReturnsFreshMap (O5.12): every call of AggregateUpTo answers for itself. Each return hands back a map
+// made in this very call (possibly empty): a map kept in the buffer and reused between calls is returned again by the
+// early exits (nothing outstanding, watermark below the stored range) with the previous acknowledgement's levels in it,
+// and those levels are acknowledged a second time as if the target had confirmed them now.
+func checkAggregateReturnsFreshMap(c *Ctx, res *report.Result, rule string) {
+	f := resolve(c, res, rule, anchor{"proxy", "*proxyIDRingBuffer", "AggregateUpTo"})
+	if f == nil {
+		return
+	}
+	n := 0
+	for _, b := range f.Blocks {
+		ret, ok := b.Instrs[len(b.Instrs)-1].(*ssa.Return)
+		if !ok || len(ret.Results) < 1 {
+			continue
+		}
+		n++
+		v := flow.ResolveLoad(flow.Ret(ret)[0])
+		mk, isMake := v.(*ssa.MakeMap)
+		res.Check(isMake && mk.Parent() == f, rule, fmt.Sprintf("AggregateUpTo: the map returned in block %d was made in this call", b.Index), instrPos(c.Prog, ret), "make(map[..]..) of this call",
+			"AggregateUpTo returns "+flow.Describe(v)+", not a map made in this call: a result kept between calls still holds the levels of the previous acknowledgement when this call returns early (empty ring, watermark below the stored range), and the sender forwards them again")
+	}
+	if n < 2 {
+		res.Undec(rule, "AggregateUpTo: returns", fnPos(c.Prog, f), fmt.Sprintf("%d found, at least 2 confirmed by hand", n))
+	}
+}
